@@ -92,6 +92,8 @@ def make_case(family, i, rng, tier):
             case['app_close_at'] = {'name': name,
                                     'nth': sum(1 for e in enc0.expected[:k]
                                                if e[0] == name)}
+            # no close timeout in any of its spellings: nothing is dropped
+            case['close_timeout'] = rng.choice([None, None, 0, 0.0])
             case.setdefault('close', {'code': 1000, 'reason': u'ack'})
     if rng.random() < 0.3:
         # permessage-deflate negotiated with seeded parameters; most data
@@ -152,7 +154,7 @@ def build(case):
         case, enc, tail, app=app, extra_headers=extra, ws=ws,
         connect={'poll': case.get('poll', 5),
                  'auto_pong': case.get('auto_pong', True),
-                 'close_timeout': None})
+                 'close_timeout': case.get('close_timeout')})
     pre = case.get('prelude')
     if pre:
         fr = {'mid_codepoint': peer.enc_frame(1, b'abc\xe2\x82', fin=0),
